@@ -1,6 +1,7 @@
 package harness
 
 import (
+	"regexp"
 	"sort"
 	"encoding/json"
 	"fmt"
@@ -424,7 +425,8 @@ func genQSClause(t *rapid.T) qsClause {
 		qf = field
 	}
 	w := func() string { return rapid.SampledFrom(Vocab).Draw(t, "w") }
-	switch rapid.IntRange(0, 11).Draw(t, "clause") {
+	clause := rapid.IntRange(0, 13).Draw(t, "clause")
+	switch clause {
 	case 10, 11:
 		// a keyword value with characters of the syntax, each escaped with a backslash
 		pool := c17SpecialWords
@@ -457,8 +459,14 @@ func genQSClause(t *rapid.T) qsClause {
 	case 6:
 		x := rapid.SampledFrom([]string{"ab?", "a.*", "[ab]+"}).Draw(t, "re")
 		c.Text, c.Q = scope+"/"+x+"/", &Q{Kind: "regexp", Field: qf, Text: x}
-	case 7, 8:
-		v := rapid.SampledFrom([]float64{-2, -1, 0, 0.5, 1, 3, 16}).Draw(t, "num")
+	case 7, 8, 12, 13:
+		// 12, 13: numbers written with a decimal point only, so that strings with several
+		// dotted number tokens (lexer state carried from one token to the next) are common
+		pool := []float64{-2, -1, 0, 0.5, 1, 3, 16}
+		if clause >= 12 {
+			pool = []float64{-1.5, 0.5, 1.25, 2.5, 15.75}
+		}
+		v := rapid.SampledFrom(pool).Draw(t, "num")
 		op := rapid.SampledFrom([]string{">", ">=", "<", "<=", ""}).Draw(t, "op")
 		tr, fa := true, false
 		q := &Q{Kind: "numrange", Field: "n"}
@@ -580,6 +588,11 @@ func TestC17QueryStringGrammar(t *testing.T) {
 		if hasPolluter {
 			cl = append(cl, "O4-parsed-after-another-string")
 		}
+		if len(c17DottedNumber.FindAllString(s, -1)) >= 2 {
+			cl = append(cl, "O4-two-or-more-dotted-number-tokens")
+		}
 		ev.Case(nt, map[string]interface{}{"s": s, "steps": c.Steps}, map[string]interface{}{"string": s, "parsed_after": polluter, "constructed": bq.String(), "hits": got}, cl...)
 	})
 }
+
+var c17DottedNumber = regexp.MustCompile(`[0-9]+\.[0-9]+`)
